@@ -572,11 +572,12 @@ class J1939_22:
             if buffer_hash not in self._rcv_buffer:
                 return
             pgn = self._rcv_buffer[buffer_hash]['pgn']
-            if (self._rcv_buffer[buffer_hash]['message_size'] == message_size) and (self._rcv_buffer[buffer_hash]['num_segments'] == segment_num):
+            # deliver only a completely received message (a segment may have been lost)
+            if (self._rcv_buffer[buffer_hash]['message_size'] == message_size) and (self._rcv_buffer[buffer_hash]['num_segments'] == segment_num) and (len(self._rcv_buffer[buffer_hash]['data']) == message_size):
                 self.__notify_subscribers(mid.priority, pgn, src_address, dest_address, timestamp, self._rcv_buffer[buffer_hash]['data'])
                 if dest_address != ParameterGroupNumber.Address.GLOBAL:
                     self.__send_tp_eom_ack(dest_address, src_address, session_num, message_size, segment_num, pgn)
-            else:
+            elif dest_address != ParameterGroupNumber.Address.GLOBAL:
                 self.__send_tp_abort(dest_address, src_address, session_num, self.ConnectionAbortReason.RESOURCES, pgn)
             del self._rcv_buffer[buffer_hash]
 
